@@ -125,6 +125,53 @@ func VH_C16_CreatePromise() {
 	vx.Reach("done")
 }
 
+// The composite command: the task is created only if the promise was, and each reported count is the
+// count of its own insert (a task id that is already taken inserts nothing and must be reported as 0).
+func VH_C16_CreatePromiseAndTask() {
+	w := vhWorker()
+	vx.Havoc()
+	s0 := vx.Snap()
+	id, tid := vx.String("id"), vx.String("taskId")
+	data := vx.Bytes("pdata")
+	vx.Assume(!vx.BytesNil(data))
+	hdrs, tags := vx.Tags("phdr", 1), vx.Tags("tags", 1)
+	timeout, createdOn := vx.Int64("timeout"), vx.Int64("createdOn")
+	recv := vx.Bytes("recv")
+	vx.Assume(!vx.BytesNil(recv))
+	pid := vx.String("processId")
+	ttl := vx.Int("ttl")
+	expiresAt := vx.Int64("expiresAt")
+	mesg := &message.Mesg{Type: message.Invoke, Root: id, Leaf: id}
+	res, ok := vhExec1(w, &t_aio.Command{Kind: t_aio.CreatePromiseAndTask, CreatePromiseAndTask: &t_aio.CreatePromiseAndTaskCommand{
+		PromiseCommand: &t_aio.CreatePromiseCommand{Id: id, Param: promise.Value{Headers: hdrs, Data: data}, Timeout: timeout, Tags: tags, CreatedOn: createdOn},
+		TaskCommand: &t_aio.CreateTaskCommand{Id: tid, Recv: recv, Mesg: mesg, Timeout: timeout, ProcessId: &pid, State: task.Claimed, Ttl: ttl, ExpiresAt: expiresAt, CreatedOn: createdOn}}})
+	s1 := vx.Snap()
+	if !ok {
+		vx.Reach("error")
+		vx.Assert(vx.SameDB(s0, s1), "error-no-effect")
+		return
+	}
+	preP, postP := vx.Lookup(s0, "promises", id), vx.Lookup(s1, "promises", id)
+	preT, postT := vx.Lookup(s0, "tasks", tid), vx.Lookup(s1, "tasks", tid)
+	pins := !preP.Present()
+	tins := vx.And(pins, !preT.Present())
+	r := res.CreatePromiseAndTask
+	vx.Assert(r.PromiseRowsAffected == vhB2I(pins), "promise-rows-affected")
+	vx.Assert(r.TaskRowsAffected == vhB2I(tins), "task-rows-affected-is-the-task-inserts-own-count")
+	vx.Assert(vx.Implies(pins, vx.And(postP.Present(), postP.Int("state") == 1, postP.Int("timeout") == timeout, postP.Int("created_on") == createdOn,
+		vx.BytesEq(postP.Bytes("param_data"), data), vx.MapEq(postP.Map("param_headers"), hdrs), vx.MapEq(postP.Map("tags"), tags))), "promise-inserted-values")
+	vx.Assert(vx.Implies(!pins, vx.SameDB(s0, s1)), "existing-promise-nothing-changes")
+	vx.Assert(vx.Implies(tins, vx.And(postT.Present(), postT.Int("state") == 4, postT.Int("counter") == 1, postT.Int("ttl") == int64(ttl), postT.Int("expires_at") == expiresAt,
+		postT.Str("process_id") == pid, !postT.Null("process_id"), postT.Str("root_promise_id") == id, vx.BytesEq(postT.Bytes("recv"), recv), postT.Int("timeout") == timeout)), "task-inserted-values")
+	vx.Assert(vx.Implies(!tins, vx.SameTable(s0, s1, "tasks")), "existing-task-untouched")
+	for i := 0; i < vx.NSlots("tasks"); i++ {
+		a, b := vx.Slot(s0, "tasks", i), vx.Slot(s1, "tasks", i)
+		vx.Assert(vx.Implies(a.Present(), vx.SameRow(a, b)), "other-tasks-unchanged")
+	}
+	vx.Assert(vx.And(vx.SameTable(s0, s1, "callbacks"), vx.SameTable(s0, s1, "locks"), vx.SameTable(s0, s1, "schedules")), "other-tables-unchanged")
+	vx.Reach("done")
+}
+
 // ---------------------------------------------------------------- callbacks
 
 func VH_C16_CreateCallback() {
